@@ -52,13 +52,17 @@ def chunksWithEof (cs : List Bytes) : List (Bytes Ã— Bool) := cs.dropLast.map (Â
 def fileShape (id name mime : Nat) (c : Bytes Ã— Bool) : Shape :=
   { testId := some id, status := none, fileName := some name, fileBytes := some c.1, eof := c.2, mime := some mime }
 
+/-- the reason of a skip travels as a text file named `reason` -/
+def reasonShapes (id : Nat) (r : Result) : List Shape :=
+  match reasonOf r with
+  | some rs => [fileShape id 0 1 (encode rs, true)]
+  | none => []
+
 /-- per test: `inprogress`, the file events of its details in order, the reason file, exactly one final status -/
 def expectShapes (t : TestIn) : List Shape :=
   [{ testId := some t.id, status := some .inprogress, fileName := none, fileBytes := none, eof := false, mime := none }]
   ++ ((attachments t.result).map fun d => (chunksWithEof d.chunks).map (fileShape t.id d.name d.mime)).flatten
-  ++ (match reasonOf t.result with
-      | some r => [fileShape t.id 0 1 (encode r, true)]
-      | none => [])
+  ++ reasonShapes t.id t.result
   ++ [{ testId := some t.id, status := some (streamStatus t.result), fileName := none, fileBytes := none, eof := false, mime := none }]
 
 def statuses : List StreamEv â†’ Option (List Event)
